@@ -52,6 +52,17 @@ def worker(w, seeds):
             rc, out = sh("timeout 2000 ./check %s --tier %s" % (prop, TIER), base + "/verif", e)
             last = [l for l in out.splitlines() if l.startswith(("VIOLATION", "OK", "MACHINERY"))]
             rec.update(rc=rc, line=(last[0] if last else out[-300:])[:260])
+            # what the first replay says failed (the spec-oracle key, or the broken obligation)
+            m = re.search(r"replay=(\S+)", rec["line"])
+            if m:
+                try:
+                    rp = json.load(open(os.path.join(base, "verif", m.group(1))))
+                    rec["key"] = rp.get("key") or ("broken: " + "; ".join(str(b.get("details", [""])[0])[:80] for b in rp.get("broken", []) if isinstance(b, dict)))
+                    rec["what"] = str(rp.get("what", ""))[:200]
+                    keys = sorted({json.load(open(f)).get("key", "") for f in glob.glob(os.path.join(base, "verif", "replays", "*.json"))} - {"", None})
+                    rec["keys"] = keys[:8]
+                except Exception as e:
+                    rec["key"] = "?"
         rec["wall_s"] = round(time.time() - t0, 1)
         with open(OUT, "a") as o:
             o.write(json.dumps(rec) + "\n")
